@@ -21,3 +21,57 @@ package api
 //@   attr wraps in.Capacity*poc.MiB
 //@   assert-at call checkMinerDiskSize checks-the-configured-size: arg1 == in.Capacity && diskSize == (in.Capacity * 1048576) % 18446744073709551616
 //@   assert-at call ConfigureBySize configures-the-checked-size: arg1 == diskSize
+
+// ---- C20: the HTTP gateway serves only allowed origins
+
+//@ func accessControlHandler$1
+//@   attr modular
+//@   requires req != nil && h != nil
+//@   assert-at call ServeHTTP served-only-if-the-origin-is-allowed: lastresult("isAllowedAddress")
+//@   assert-at call OtherErrorHandler forbidden-origin-gets-403: !lastresult("isAllowedAddress") && arg3 == 403
+
+//@ func getIPAccessControlFunc$1
+//@   attr modular
+//@   assert-at return#3 loopback-only-by-its-text-form: ipStrS(resolvedIP(addr)) == "127.0.0.1" || ipStrS(resolvedIP(addr)) == "::1"
+//@   assert-at return#4 whitelisted-ip-matches: ipStrS(bytesval(ip)) == ipStrS(resolvedIP(addr)) && 0 <= #rangeindex + 1 && #rangeindex + 1 < len(allowedIPs) && ip == allowedIPs[#rangeindex + 1]
+//@   assert-at return#5 inside-an-enabled-lan: netHas(bytesval(rule.IP), bytesval(rule.Mask), resolvedIP(addr))
+//@   assert-at return#2 unresolvable-address-is-refused: !result
+//@   assert-at return#6 everything-else-is-refused: !result
+//@   assert-at return#1 wildcard-configured: allowAllIP
+
+//@ func Run
+//@   requires cfg != nil
+//@   assert-at call getIPAccessControlFunc uses-the-configured-lists: arg0 == cfg.Whitelist && arg1 == cfg.AllowedLan
+//@   assert-at call accessControlHandler guarded-by-the-configured-function: arg1 == lastresult("getIPAccessControlFunc")
+//@   assert-at call ListenAndServe serves-through-the-access-control-handler: arg1 == lastresult("accessControlHandler")
+
+//@ func (*Server).Start
+//@   assert-at call Listen grpc-on-loopback-only: GRPCListenAddress == "127.0.0.1" && arg1 == lastresult("Sprintf")
+
+//@ func getBindingTarget
+//@   assert-at call NewAddressBindingTarget target-is-hash160-type-size: len(arg0) == 22 && arg0[20] == proofType % 256 && arg0[21] == bitLength % 256 && (forall j int :: 0 <= j && j < 20 ==> arg0[j] == lastresult("Hash160")[j]) && arg1 == config.ChainParams
+//@   assert-at call Hash160 of-the-given-key: arg0 == pub
+
+//@ func workSpaceInfo2ProtoWorkSpace
+//@   requires wsi.PublicKey != nil
+//@   assert-at call getBindingTarget target-of-this-space: arg0 == lastresult("SerializeCompressed") && arg1 == poc.ProofTypeDefault && arg2 == wsi.BitLength
+//@   assert-at call NewPoCAddress address-of-this-key: arg0 == wsi.PublicKey && arg1 == config.ChainParams
+//@   ensures fields-copied: err == nil ==> result0 != nil && result0.SpaceId == wsi.SpaceID && result0.Ordinal == wsi.Ordinal && result0.BitLength == wsi.BitLength % 4294967296 && result0.BindingTarget == lastresult("getBindingTarget") && result0.Address == lastresult("EncodeAddress") && result0.PublicKey == lastresult("EncodeToString")
+
+//@ func workSpaceInfo2ProtoWorkSpaceV2
+//@   requires wsi.PublicKey != nil
+//@   assert-at call getBindingTarget target-of-this-plot: arg0 == lastresult("Bytes") && arg1 == poc.ProofTypeChia && arg2 == wsi.BitLength
+//@   ensures fields-copied: err == nil ==> result0 != nil && result0.SpaceId == wsi.SpaceID && result0.K == wsi.BitLength % 4294967296 && result0.BindingTarget == lastresult("getBindingTarget")
+
+//@ func AmountToString
+//@   ensures in-range-succeeds: 0 <= m && m <= maxAmountV() ==> err == nil
+//@   ensures out-of-range-refused: err == nil ==> 0 <= m && m <= maxAmountV()
+//@   ensures exact-canonical-decimal: err == nil ==> result0 == ite(len(trimz(pad8(m % 100000000))) > 0, concat(concat(numstr(m / 100000000), "."), trimz(pad8(m % 100000000))), numstr(m / 100000000))
+
+//@ func StringToAmount
+//@   assert-at call ParseInt#1 integral-part-base-10: arg1 == 10 && arg0 == ite(len(triml(lastresult("Split")[0])) == 0, "0", triml(lastresult("Split")[0]))
+//@   assert-at call ParseInt#2 fraction-padded-to-8-digits: arg1 == 10 && len(arg0) == 8
+//@   assert-at call MulInt whole-coins-scaled: u128(arg0) == 100000000 && arg1 == lastresult("ParseInt#1")
+//@   assert-at call AddInt fraction-added: u128(arg0) == 100000000 * lastresult("ParseInt#1") && arg1 == lastresult("ParseInt#2")
+//@   ensures value-is-integral-times-1e8-plus-fraction: err == nil ==> amountV(result0) == 100000000 * lastresult("ParseInt#1") + lastresult("ParseInt#2") && lastresult("ParseInt#1") >= 0 && lastresult("ParseInt#2") >= 0 && amountV(result0) <= maxAmountV()
+//@   ensures at-most-two-parts: err == nil ==> len(lastresult("Split")) <= 2
